@@ -104,10 +104,10 @@ Section Inv.
     (* the sender half of A: still on its one ISS, or dead *)
     assert (HR3' : sq (g_iss gt') = isn \/ dead_tx gt' s').
     { destruct R3 as [E | Hdead].
-      - destruct Hrel as [(Hiss & _) | (Hb' & [(Hc' & _) | (_ & Hevn)])].
+      - destruct Hrel as [(Hiss & _) | (Hb' & [(Hc' & _) | Hevn])].
         + left. rewrite Hiss. exact E.
         + right. split; assumption.
-        + exfalso. destruct ev; try contradiction. destruct Hevn as [E'|E']; [exact (R2 E') | exact (Hnl' E')].
+        + exfalso. destruct ev; try contradiction. destruct Hevn as (_ & [E'|E']); [exact (R2 E') | exact (Hnl' E')].
       - right. apply (dead_step _ _ _ _ _ _ _ _ Hrun Hstep Hinv' Hrel Hdead). }
     unfold INV. cbn [n_a n_b].
     split; [exact HEPa'|]. split; [exact HEPb|]. split; [exact HDab'|]. split; [exact HDba'|].
@@ -122,11 +122,11 @@ Section Inv.
         destruct (wire_out out) as [q|] eqn:Ew; cbn in Hin; [|contradiction]. destruct Hin as [<- | []].
         destruct (wire_out_emitted _ _ Ew) as (_ & Ht).
         destruct R3 as [E | Hdead].
-        - destruct Hrel as [(Hiss & _) | (_ & [(_ & Hnone) | (_ & Hevn)])].
-          + destruct (Hpk q Ht) as (_ & _ & _ & _ & _ & Hs & _). destruct (Hs Hsyn) as (_ & ->).
+        - destruct Hrel as [(Hiss & _) | (_ & [(_ & Hnone) | Hevn])].
+          + destruct (Hpk q Ht) as (_ & Hs & _). destruct (Hs Hsyn) as (_ & ->).
             rewrite Hiss. exact E.
           + congruence.
-          + exfalso. destruct ev; try contradiction. destruct Hevn as [E'|E']; [exact (R2 E') | exact (Hnl' E')].
+          + exfalso. destruct ev; try contradiction. destruct Hevn as (_ & [E'|E']); [exact (R2 E') | exact (Hnl' E')].
         - exfalso. destruct (dead_step _ _ _ _ _ _ _ _ Hrun Hstep Hinv' Hrel Hdead) as (_ & Hrst).
           unfold out_rst_only in Hrst. destruct out as [| | | |[q'|]|[|q'|q']]; cbn in Ew; inversion Ew; subst;
             congruence. }
@@ -174,14 +174,13 @@ Section Inv.
     { intros irs' Hn Hs.
       destruct (sync_cases _ _ _ _ _ _ _ Hrun Hn Hs) as (ip & r & -> & -> & _).
       destruct (Hseg ip r eq_refl) as (p & Hin & -> & -> & _).
-      destruct HDab as (Hpd & _). pose proof (Hpd p Hin) as ((W1 & _) & _).
       destruct (wire_parse_fields (snd p)) as (_ & P2 & P3 & _).
       destruct HEPb as (_ & _ & Hg & _).
       assert (Hev : ev_ok (fun _ => Sa) (fun _ => Fa) (eg_rx gb) (ep_sock eb) (EvSegment (fst p) (wire_parse (snd p)))).
-      { split; [rewrite P2; exact W1|]. rewrite Hn. exact I. }
+      { split; [rewrite P2; apply seq_norm_range|]. rewrite Hn. exact I. }
       destruct (sync_only_by_syn (fun _ => Sa) (fun _ => Fa) (Fx_nonneg Fa HFnn) _ _ _ _ _ _ _ _ Hg Hev Hstep Hn) as (Hsyn & _).
       { fold gr'. congruence. }
-      rewrite P2. apply R4; [exact Hin|]. rewrite <- P3. exact Hsyn. }
+      rewrite P2. rewrite (R4 p Hin); [apply seq_norm_small; exact Hisn | rewrite <- P3; exact Hsyn]. }
     destruct (xstep c05 Sa Fa Sb Fb eb gb ea ga ev eb' s' out tags HEPb HEPa HDba HDab Hcb Hca Hrun Hstep Hxf Hseg Hrecv)
       as (gt' & HEPb' & HDba' & HDab' & Hinv' & Hrel & Hpk & HJnew & Hfrozen).
     { intros irs' Hn Hs k HK. rewrite (Hsync irs' Hn Hs). apply R6. exact HK. }
@@ -383,7 +382,7 @@ Section Inv.
     destruct (ginv_wf _ _ _ _ Hg) as (Hwf & _ & Hsh).
     assert (Hevrx : ev_ok (fun _ => S) (fun _ => F) gr (ep_sock e) ev) by (destruct ev; try contradiction; exact I).
     assert (Hevtx : match ev with EvSegment ip r => repr_ok r | _ => True end) by (destruct ev; try contradiction; exact I).
-    destruct (c05 _ _ _ _ _ _ _ Hi Hcx Hevtx (rb_wf_conv _ Hwf) Hsh Hstep) as (gt' & Hi' & Hrel & _).
+    destruct (c05 _ _ _ _ _ _ _ Hi Hcx Hevtx Hstep) as (gt' & Hi' & Hrel & _).
     pose proof (step_inv _ _ (Fx_nonneg F HF) _ _ _ _ _ _ _ Hg Hevrx Hstep) as (Hg' & _).
     exists gt', (ghost_step (ep_cx e) gr (ep_sock e) ev s' out).
     assert (Hwo : wire_out out = None).
@@ -538,14 +537,14 @@ Section Inv.
     destruct (ep_step_spec _ _ _ Hep) as (s' & out & tags & Hstep & _ & _ & _ & _ & X4 & _).
     rewrite X4. unfold log_written. destruct ev; try reflexivity. destruct out; try reflexivity.
     destruct (ginv_wf _ _ _ _ Hg) as (Hwf & _ & Hsh).
-    destruct (c05 (ep_cx e) (eg_tx g) (ep_sock e) (EvSend data) s' (OSize n) tags Hinv Hcx I (rb_wf_conv _ Hwf) Hsh Hstep) as (gt' & _ & Hrel & _).
+    destruct (c05 (ep_cx e) (eg_tx g) (ep_sock e) (EvSend data) s' (OSize n) tags Hinv Hcx I Hstep) as (gt' & _ & Hrel & _).
     cbn [tcp_step] in Hstep.
     destruct (tcp_send_slice (ep_sock e) data) as [(s1, n1)|err|] eqn:Es; inversion Hstep; subst s1 n1 tags; clear Hstep.
     destruct (send_slice_tailf _ _ _ _ Es) as (_ & Hst).
     assert (Hms : tcp_may_send (ep_sock e) = true).
     { unfold tcp_send_slice in Es. destruct (tcp_may_send (ep_sock e)); [reflexivity | discriminate]. }
     destruct Htxl as [(T1 & T2) | (Dc & _)].
-    - destruct Hrel as [(_ & Hst' & _ & Hfr & _) | (_ & [(Hc' & _) | (_ & Hf)])].
+    - destruct Hrel as [(_ & Hst' & _ & Hfr & _) | (_ & [(Hc' & _) | Hf])].
       + rewrite Hcl in T2. specialize (Hfr T2). rewrite Hst' in Hfr. unfold log_written in Hfr.
         rewrite <- (app_nil_r (g_stream (eg_tx g))) in Hfr at 2. apply app_inv_head in Hfr. rewrite Hfr. apply app_nil_r.
       + exfalso. unfold tcp_may_send in Hms. rewrite <- Hst, Hc' in Hms. discriminate.
